@@ -2,6 +2,7 @@ import LyModel.Text.SpecLemmas
 import LyModel.XmlTree.Roundtrip
 import LyModel.XmlTree.OpaqTag
 import LyModel.XmlTree.OpaqFaithful
+import LyModel.XmlTree.DataFaithful
 import LyModel.Generated.JsonTyping
 import LyModel.JsonTree.Refine
 import LyModel.JsonTree.Faithful
@@ -128,7 +129,7 @@ theorem start_tag_binds_each_prefix_once_fails_without_numbered_prefixes :
       fx.reserved = true → consistent (reservedOf valPfx attrs) = true →
       ((declared (startTagItems fx st ns value valPfx attrs).1).map (·.1)).Nodup := by
   intro h
-  have := h ⟨false, true, true⟩ [] none [] []
+  have := h ⟨false, true, true, true⟩ [] none [] []
     [⟨none, none, [97], [112, 58, 120], [(some [112], [50])]⟩, ⟨some [112], some [49], [98], [118], []⟩] rfl (by decide)
   revert this
   decide
@@ -160,9 +161,9 @@ theorem attr_prefix_resolves_fails_without_reserved_check :
       fx.numbered = true →
       AttrsResolve (startTagItems fx st ns value valPfx attrs).2 attrs (attrsOf (startTagItems fx st ns value valPfx attrs).1) := by
   intro h
-  have := h ⟨true, false, true⟩ [(some [113], [117, 49])] none [] []
+  have := h ⟨true, false, true, true⟩ [(some [113], [117, 49])] none [] []
     [⟨some [112], some [117, 49], [97], [113, 58, 120], [(some [113], [117, 50])]⟩] rfl
-  have e : startTagItems ⟨true, false, true⟩ [(some [113], [117, 49])] none [] []
+  have e : startTagItems ⟨true, false, true, true⟩ [(some [113], [117, 49])] none [] []
       [⟨some [112], some [117, 49], [97], [113, 58, 120], [(some [113], [117, 50])]⟩] =
       ([.decl (some [113]) [117, 50], .attr (some [113]) [97] [113, 58, 120]],
        [(some [113], [117, 50]), (some [113], [117, 49])]) := by decide
@@ -178,9 +179,9 @@ theorem attr_prefix_resolves_fails_without_numbered_prefixes :
       fx.reserved = true →
       AttrsResolve (startTagItems fx st ns value valPfx attrs).2 attrs (attrsOf (startTagItems fx st ns value valPfx attrs).1) := by
   intro h
-  have := h ⟨false, true, true⟩ [(some [112], [117, 50])] none [] []
+  have := h ⟨false, true, true, true⟩ [(some [112], [117, 50])] none [] []
     [⟨some [120], some [117, 50], [97], [118], []⟩, ⟨some [112], some [117, 49], [98], [119], []⟩] rfl
-  have e : startTagItems ⟨false, true, true⟩ [(some [112], [117, 50])] none [] []
+  have e : startTagItems ⟨false, true, true, true⟩ [(some [112], [117, 50])] none [] []
       [⟨some [120], some [117, 50], [97], [118], []⟩, ⟨some [112], some [117, 49], [98], [119], []⟩] =
       ([.attr (some [112]) [97] [118], .decl (some [112]) [117, 49], .attr (some [112]) [98] [119]],
        [(some [112], [117, 49]), (some [112], [117, 50])]) := by decide
@@ -278,7 +279,7 @@ theorem opaque_document_faithful_any_namespace_fails_without_undeclaration :
     ¬ ∀ (fx : Fixes) (forest : List ONode), fx.numbered = true → fx.reserved = true → opaqOkAnyNs forest = true →
       XmlDoc.parseDoc (printOpaqData fx forest) = some (oviewList forest) := by
   intro h
-  have := h ⟨true, true, false⟩ [.mk [97] none (some [111]) [] [] [] [.mk [98] none none [116] [(none, [])] [] []]] rfl rfl (by decide)
+  have := h ⟨true, true, false, true⟩ [.mk [97] none (some [111]) [] [] [] [.mk [98] none none [116] [(none, [])] [] []]] rfl rfl (by decide)
   have := congrArg innerName this
   revert this
   decide +kernel
@@ -312,7 +313,7 @@ theorem opaque_document_faithful_fails_without_numbered_prefixes :
     ¬ ∀ (fx : Fixes) (forest : List ONode), fx.reserved = true → opaqOk forest = true →
       XmlDoc.parseDoc (printOpaqData fx forest) = some (oviewList forest) := by
   intro h
-  have := h ⟨false, true, true⟩
+  have := h ⟨false, true, true, true⟩
     [.mk [114] none (some [111]) [] [] [⟨some [112], some [50], [107], [49], []⟩]
       [.mk [101] none (some [111]) [] [] [⟨some [120], some [50], [97], [118], []⟩, ⟨some [112], some [49], [98], [119], []⟩] []]]
     rfl (by decide)
@@ -327,7 +328,7 @@ theorem opaque_document_faithful_fails_without_reserved_check :
     ¬ ∀ (fx : Fixes) (forest : List ONode), fx.numbered = true → opaqOk forest = true →
       XmlDoc.parseDoc (printOpaqData fx forest) = some (oviewList forest) := by
   intro h
-  have := h ⟨true, false, true⟩
+  have := h ⟨true, false, true, true⟩
     [.mk [114] none (some [111]) [] [] [⟨some [113], some [49], [107], [49], []⟩]
       [.mk [101] none (some [111]) [] [] [⟨some [112], some [49], [97], [113, 58, 120], [(some [113], [50])]⟩] []]]
     rfl (by decide)
@@ -373,6 +374,101 @@ example : XmlTree.printOpaqData XmlTree.Fixes.all exOpaq2 = bytesOfString
 
 example : XmlDoc.parseDoc (XmlTree.printOpaqData XmlTree.Fixes.all exOpaq2) = some (XmlTree.oviewList exOpaq2) :=
   opaque_document_faithful XmlTree.Fixes.all rfl rfl exOpaq2 (by decide)
+
+/-! ## Data nodes WITH metadata, opaque nodes below them: one theorem for the XML printer -/
+
+open XmlTree in
+/-- **(d) A printed data tree with metadata means the tree to any namespace-aware XML reader.**  For EVERY forest as the XML
+    printer reads it under any print options (`XmlTree.DNode`: the nodes `lyd_node_should_print` lets through; terminal nodes
+    with the with-defaults attribute when it is written, their value and the modules of the prefixes inside it — identityref,
+    instance-identifier; inner nodes; on every node the printable annotations with the modules of the prefixes inside THEIR
+    values; opaque nodes with their attributes and subtrees below inner nodes or at the top) that satisfies the decidable
+    predicate `XmlTree.dataOk` — names and prefixes are XML names, no forbidden control characters, the attributes of an element
+    differ by expanded name, the opaque parts are `onodeOkB`, and **per start tag ONE namespace per prefix** among the prefix the
+    printer uses for the with-defaults attribute, the annotation modules, the modules inside annotation values and inside the
+    element value (the exclusion of finding F49) —, the document the model of `xml_print_data` / `xml_print_node` /
+    `xml_print_inner` / `xml_print_term` / `xml_print_node_open` / `xml_print_meta` / `xml_print_opaq` / `xml_print_ns` emits
+    (shrink mode) is well-formed XML 1.0 with namespaces and the independent reader recovers EXACTLY `XmlTree.dviewList forest`:
+    the elements in order with the namespace of their module, their attributes in order — `default="true"` in the namespace of
+    ietf-netconf-with-defaults first, then each annotation in the namespace of its module — with their values, and the
+    character data.  For the code before the repair of finding F301 (`Fixes.termNs = false`: `xml_print_term` writes the
+    declarations for the value's prefixes itself) `dataOk` also requires that a terminal value has no prefixes of other modules
+    (`xml_document_faithful_meta_fails_before_F301_repair` shows why).  The model is compared byte for byte with libyang under
+    each of the five with-defaults modes, and `dataOk` is evaluated on every generated view (driver op `dcheck`). -/
+theorem xml_document_faithful_meta (fx : Fixes) (hn : fx.numbered = true) (hr : fx.reserved = true) (forest : List DNode)
+    (h : dataOk fx forest = true) :
+    XmlDoc.parseDoc (printDData fx forest) = some (dviewList forest) :=
+  parseDoc_printDData fx hn hr forest h
+
+open XmlTree in
+/-- **(e) Prefixes inside values keep their meaning.**  In the start tag of any data node satisfying `tagOkB` (the per-tag part
+    of `dataOk`), under any reader environment `env` that resolves like the printer's stack `st`: in the environment the
+    independent reader uses for this element — its own declarations on top of the inherited ones, `declared items ++ env` —
+    every prefix inside an annotation value resolves to the namespace of the module the value refers to, and (when the value
+    modules go through `xml_print_ns`, F301 repaired) so does every prefix inside the element value: identityref and
+    instance-identifier values denote, to the reader, the identities and nodes the tree holds. -/
+theorem value_prefixes_resolve_in_scope (fx : Fixes) (hn : fx.numbered = true) (env st : NsStack)
+    (heq : ∀ p, XmlDoc.lookup env p = XmlDoc.lookup st p) (hst : StackOk st) (ns name : Bytes) (wd : Option (Bytes × Bytes))
+    (metas : List DMeta) (value : Bytes) (valMods : ValMods) (hok : tagOkB fx st ns name wd metas value valMods = true) :
+    let items := (termTagItems fx st ns wd metas valMods).1
+    (∀ m ∈ metas, ∀ e ∈ m.valMods, XmlDoc.lookup (declared items ++ env) (some e.1) = some e.2) ∧
+    (fx.termNs = true → ∀ e ∈ valMods, XmlDoc.lookup (declared items ++ env) (some e.1) = some e.2) := by
+  have := dataTag fx hn env st heq hst ns name wd metas value valMods hok _ _ rfl
+  exact ⟨this.2.2.2.2.2.2.2.2.2.2.1, this.2.2.2.2.2.2.2.2.2.2.2⟩
+
+/-- F49: a leaf with annotations of two modules that share the prefix `a` -/
+def exF49 : List XmlTree.DNode := [.term [52] [99] none [⟨[49], [97], [104], [104], []⟩, ⟨[50], [97], [116], [116], []⟩] [] []]
+
+open XmlTree in
+/-- F49 in the model: the only conjunct of `dataOk` that fails for `exF49` is the one-namespace-per-prefix exclusion, and the
+    document printed for it — `<c xmlns="4" xmlns:a="1" a:h="h" xmlns:a="2" a:t="t"/>`, also by libyang (replayed on every run) —
+    is not well-formed: the exclusion cannot be dropped from (d). -/
+theorem xml_document_faithful_meta_fails_for_shared_prefix :
+    dlistWhy Fixes.all [] exF49 = ["F49:two-namespaces-for-one-prefix-in-a-start-tag"] ∧
+    printDData Fixes.all exF49 = bytesOfString "<c xmlns=\"4\" xmlns:a=\"1\" a:h=\"h\" xmlns:a=\"2\" a:t=\"t\"/>" ∧
+    (XmlDoc.parseDoc (printDData Fixes.all exF49)).isNone = true := by decide +kernel
+
+/-- F301: a leaf whose identityref value is of the module (prefix `a`, namespace `1`) an annotation of the leaf belongs to -/
+def exF301 : List XmlTree.DNode := [.term [52] [99] none [⟨[49], [97], [104], [104], []⟩] [97, 58, 114] [([97], [49])]]
+
+open XmlTree in
+/-- F301 in the model: before the repair `<c xmlns="4" xmlns:a="1" a:h="h" xmlns:a="1">a:r</c>` is printed (also by libyang,
+    replayed on every run) — `xmlns:a` twice, not well-formed; with the repair (`Fixes.all`) the tree satisfies `dataOk`, so (d)
+    applies: `<c xmlns="4" xmlns:a="1" a:h="h">a:r</c>`. -/
+theorem xml_document_faithful_meta_fails_before_F301_repair :
+    (XmlDoc.parseDoc (printDData ⟨true, true, true, false⟩ exF301)).isNone = true ∧
+    printDData ⟨true, true, true, false⟩ exF301 = bytesOfString "<c xmlns=\"4\" xmlns:a=\"1\" a:h=\"h\" xmlns:a=\"1\">a:r</c>" ∧
+    dataOk Fixes.all exF301 = true ∧
+    printDData Fixes.all exF301 = bytesOfString "<c xmlns=\"4\" xmlns:a=\"1\" a:h=\"h\">a:r</c>" := by decide +kernel
+
+/-- non-vacuity of (d) and (e): three levels of data nodes — `b` (module `4`) with an instance-identifier annotation of its own
+    module (`d:p="/d:b"`) and an identityref annotation of module `1` (`a:o="a:r"`); a leaf `c` with a string annotation of
+    module `1` (prefix `a` inherited) whose identityref value is of module `3`; a container `i` with an annotation of module `2`,
+    which shares the prefix `a` with module `1` (re-bound, on ANOTHER element: no defect); below it a default leaf `d` with the
+    with-defaults attribute, an annotation whose value needs `a` for module `1` again, and a value of module `3`; and an opaque
+    subtree `z` (namespace `o`, attribute of namespace `9` under the numbered prefix `a1`, its value needing `a` for `9`) -/
+def exData : List XmlTree.DNode :=
+  [.inner [52] [98] [⟨[52], [100], [112], [47, 100, 58, 98], [([100], [52])]⟩, ⟨[49], [97], [111], [97, 58, 114], [([97], [49])]⟩]
+    [.term [52] [99] none [⟨[49], [97], [104], [60, 38], []⟩] [99, 58, 103] [([99], [51])],
+     .inner [52] [105] [⟨[50], [97], [116], [116], []⟩]
+       [.term [52] [100] (some ([119], [110, 99, 119, 100])) [⟨[52], [100], [119], [97, 58, 114], [([97], [49])]⟩] [99, 58, 103] [([99], [51])],
+        .opaq (.mk [122] none (some [111]) [] [(none, [111])] [⟨some [97], some [57], [107], [97, 58, 118], [(some [97], [57])]⟩]
+          [.mk [121] none (some [111]) [120] [] [] []])]]]
+
+example : XmlTree.dataOk XmlTree.Fixes.all exData = true := by decide +kernel
+
+example : XmlTree.printDData XmlTree.Fixes.all exData = bytesOfString
+    "<b xmlns=\"4\" xmlns:d=\"4\" d:p=\"/d:b\" xmlns:a=\"1\" a:o=\"a:r\"><c a:h=\"&lt;&amp;\" xmlns:c=\"3\">c:g</c><i xmlns:a=\"2\" a:t=\"t\"><d xmlns:ncwd=\"w\" ncwd:default=\"true\" xmlns:a=\"1\" d:w=\"a:r\" xmlns:c=\"3\">c:g</d><z xmlns=\"o\" xmlns:a1=\"9\" xmlns:a=\"9\" a1:k=\"a:v\"><y>x</y></z></i></b>" := by
+  decide +kernel
+
+/-- (d) instantiated, the reader's result written out -/
+example : XmlDoc.parseDoc (XmlTree.printDData XmlTree.Fixes.all exData) = some
+    [.mk [52] [98] [([52], [112], [47, 100, 58, 98]), ([49], [111], [97, 58, 114])] []
+      [.mk [52] [99] [([49], [104], [60, 38])] [99, 58, 103] [],
+       .mk [52] [105] [([50], [116], [116])] []
+        [.mk [52] [100] [([119], [100, 101, 102, 97, 117, 108, 116], [116, 114, 117, 101]), ([52], [119], [97, 58, 114])] [99, 58, 103] [],
+         .mk [111] [122] [([57], [107], [97, 58, 118])] [] [.mk [111] [121] [] [120] []]]]] :=
+  xml_document_faithful_meta XmlTree.Fixes.all rfl rfl exData (by decide +kernel)
 
 /-- RFC 7951 sec. 6 as a table: how an instance of each YANG base type is written in JSON -/
 def rfc7951Kind : String → String
